@@ -211,13 +211,10 @@ class Machine:
             return ((('body', bd, barrier, depth + 1), rest), s1)
         if kind == 'row':
             m = {}
-            s1 = s
-            args = goal[2] if goal[0] == 'f' else ()
-            for a, r in zip(args, x):
-                s1 = unify(a, self.rename(r, m), s1)
-                if s1 is None:
-                    return None
-            return (rest, s1)
+            if goal[0] != 'f':
+                return (rest, s)
+            s1 = unify(goal, ('f', goal[1], tuple(self.rename(r, m) for r in x)), s)
+            return None if s1 is None else (rest, s1)
         if kind == 'builtin':
             return self.builtin(goal, rest, s, depth)
         raise ValueError(kind)
